@@ -346,8 +346,9 @@ KEYWORDS = {"if", "while", "for", "switch", "return", "sizeof", "goto", "else", 
             "int", "size_t", "void", "char", "uint8_t", "uint32_t", "uint64_t", "unsigned", "long", "ssize_t"}
 
 
-def calls_in(expr):
-    """all calls `f(args)` in an expression, innermost last; with assignment destination if `x = f(...)`"""
+def calls_in(expr, spans=False):
+    """all calls `f(args)` in an expression, innermost last; with assignment destination if `x = f(...)`
+    (spans=True: a fifth component, the index just past the call's closing parenthesis)"""
     out = []
     covered = -1      # calls nested in the arguments of an accepted call stay inside its argument text
     for m in re.finditer(r"(?:(\**[A-Za-z_][\w\->\.\[\]\*]*)\s*=\s*)?(?:\([^()]*\)\s*)?\(?\b([A-Za-z_]\w*)\)?\s*\(", expr):
@@ -368,8 +369,36 @@ def calls_in(expr):
             j += 1
         args = split_args(expr[i + 1:j])
         covered = j
-        out.append((m.group(1) or "", fn, args, m.start()))
+        out.append((m.group(1) or "", fn, args, m.start()) + ((j + 1,) if spans else ()))
     return out
+
+
+def top_assignment(t):
+    """`lhs = rhs;` / `lhs op= rhs;` / `T * v = rhs;` (a statement without control keyword) -> (destination, rhs) or None"""
+    t = t.strip().rstrip(";").strip()
+    depth = 0
+    for k, ch in enumerate(t):
+        if ch in "([{":
+            depth += 1
+        elif ch in ")]}":
+            depth -= 1
+        elif ch == "=" and depth == 0:
+            if t[k + 1:k + 2] == "=" or (k > 0 and t[k - 1] in "=!<>" and t[k - 2:k] not in ("<<", ">>")):
+                return None          # a comparison at top level: not an assignment statement
+            lhs = t[:k]
+            if lhs[-2:] in ("<<", ">>"):
+                lhs = lhs[:-2]
+            elif lhs[-1:] in "+-*/%|&^":
+                lhs = lhs[:-1]
+            lhs = re.sub(r"\s+", " ", lhs.strip())
+            rhs = re.sub(r"\s+", " ", t[k + 1:].strip())
+            if not lhs or not rhs:
+                return None
+            m = re.match(r"^(?:[A-Za-z_]\w*[\s\*]+)+\**\s*([A-Za-z_]\w*)$", lhs)
+            if m:                    # a declaration with initialiser: the destination is the declared name
+                lhs = m.group(1)
+            return lhs.replace(" ", ""), rhs
+    return None
 
 
 # calls that only report (their arguments never include an object of interest being released)
@@ -394,7 +423,7 @@ def is_jump(sts):
     return bool(sts) and sts[-1][0] in ("goto", "ret")
 
 
-def statements(body, fr=None):
+def statements(body, fr=None, br=None):
     """flat statement list: ('call', dst, fn, args, faillabel|None) | ('cond', c, label) | ('label', l) | ('goto', l) | ('ret',)
 
     `if (c) B` where B cannot fall out of its block (ends in goto/return) is a *jumping block*:
@@ -403,7 +432,15 @@ def statements(body, fr=None):
       - B does more, c has calls:               calls of c with failure label <blkN>; `.label <blkN>`, B appended after the
                                                 function's last statement (out of line)
     any other `if`/`else`/loop body is ordinary code and is flattened into the main line (over-approximation: both arms
-    are walked as if executed)."""
+    are walked as if executed).
+
+    br is not None: *branching* translation (for the path-sensitive judgement of the key-expand functions).  Control
+    flow is kept: `if (c) A else B` -> calls of c, `.cond "!(c)" <elseN>`, A, `.goto <endifN>`, `.label <elseN>`, B,
+    `.label <endifN>`; loops -> `.label <loopN>`, header calls, `.cond "!(<loop>)" <endloopN>`, body, `.goto <loopN>`,
+    `.label <endloopN>` (a back edge); `switch` -> one `.cond "case X" <caseN>` per case, `.goto` default or end, the body
+    with `.label <caseN>` at each case (fall-through as in C), `break` -> `.goto <swendN>`; `break`/`continue` in loops
+    -> `.goto`.  Plain assignments are kept as `.call lhs "" [rhs]` (when the right-hand side is more than one call that
+    already carries the destination), macro invocations are calls anyway.  br = {"brk", "cont", "cases"}."""
     fr = fr if fr is not None else Fresh()
     out = []
     i, n = 0, len(body)
@@ -469,14 +506,14 @@ def statements(body, fr=None):
             j += 1
         return n
 
-    def sub(k):
+    def sub(k, ctx=br):
         """-> (translated statements of the sub-statement at k, end)"""
         k = skip_ws(k)
         e = stmt_end(k)
         text = body[k:e]
         if text.startswith("{"):
             text = text[1:text.rfind("}")] if "}" in text else text[1:]
-        return statements(text, fr), e
+        return statements(text, fr, ctx), e
 
     def jumping(cond, ccalls, inner):
         """emit `if (cond) inner` where inner ends in goto/return"""
@@ -503,6 +540,14 @@ def statements(body, fr=None):
         i = skip_ws(i)
         if i >= n:
             break
+        m = re.match(r"(case\b[^:;{}?]*|default\s*):(?!:)", body[i:]) if br is not None else None
+        if m:
+            l = fr.label("case")
+            out.append(("label", l))
+            if br.get("cases") is not None:
+                br["cases"].append((l, re.sub(r"\s+", " ", m.group(1).strip())))
+            i += m.end()
+            continue
         m = re.match(r"([A-Za-z_]\w*)\s*:(?!:)", body[i:])
         if m and m.group(1) not in ("default", "case"):
             out.append(("label", m.group(1)))
@@ -519,6 +564,32 @@ def statements(body, fr=None):
             cond = re.sub(r"\s+", " ", body[p0 + 1:p1].strip())
             inner, end = sub(p1 + 1)
             cs = calls_in(cond)
+            if br is not None:
+                k = skip_ws(end)
+                has_else = bool(re.match(r"else\b", body[k:]))
+                if is_jump(inner):
+                    jumping(cond, cs, inner)
+                    if has_else:              # the then-branch never falls out: the else-branch is simply what follows
+                        inner2, end = sub(k + 4)
+                        out.extend(inner2)
+                else:
+                    for (dst, fn, args, _) in cs:
+                        out.append(("call", dst, fn, args, None))
+                    lelse = fr.label("else")
+                    out.append(("cond", "!(%s)" % cond, lelse))
+                    out.extend(inner)
+                    if has_else:
+                        inner2, end = sub(k + 4)
+                        lend = fr.label("endif")
+                        if not is_jump(inner):
+                            out.append(("goto", lend))
+                        out.append(("label", lelse))
+                        out.extend(inner2)
+                        out.append(("label", lend))
+                    else:
+                        out.append(("label", lelse))
+                i = end
+                continue
             if is_jump(inner):
                 jumping(cond, cs, inner)
             else:
@@ -536,6 +607,34 @@ def statements(body, fr=None):
             i = end
             continue
         m = re.match(r"(while|for|switch)\s*\(", body[i:])
+        if m and br is not None:
+            p0 = i + m.end() - 1
+            p1 = paren(p0)
+            hcalls = [("call", dst, fn, args, None) for (dst, fn, args, _) in calls_in(body[p0 + 1:p1])]
+            if m.group(1) == "switch":
+                ctx = {"brk": fr.label("swend"), "cont": br.get("cont"), "cases": []}
+                inner, end = sub(p1 + 1, ctx)
+                out.extend(hcalls)
+                dflt = ctx["brk"]
+                for (l, txt) in ctx["cases"]:
+                    if txt.startswith("default"):
+                        dflt = l
+                    else:
+                        out.append(("cond", txt, l))
+                out.append(("goto", dflt))
+                out.extend(inner)
+                out.append(("label", ctx["brk"]))
+            else:
+                ctx = {"brk": fr.label("endloop"), "cont": fr.label("loop"), "cases": br.get("cases")}
+                out.append(("label", ctx["cont"]))
+                out.extend(hcalls)
+                out.append(("cond", "!(<loop>)", ctx["brk"]))
+                inner, end = sub(p1 + 1, ctx)
+                out.extend(inner)
+                out.append(("goto", ctx["cont"]))
+                out.append(("label", ctx["brk"]))
+            i = end
+            continue
         if m:
             p0 = i + m.end() - 1
             p1 = paren(p0)
@@ -547,6 +646,18 @@ def statements(body, fr=None):
                 jumping("<loop>", [], inner)
             else:
                 out.extend(inner)
+            i = end
+            continue
+        if re.match(r"do\b", body[i:]) and br is not None:
+            ctx = {"brk": fr.label("endloop"), "cont": fr.label("loop"), "cases": br.get("cases")}
+            out.append(("label", ctx["cont"]))
+            inner, e = sub(i + 2, ctx)
+            out.extend(inner)
+            end = stmt_end(i)
+            for (dst, fn, args, _) in calls_in(body[e:end]):
+                out.append(("call", dst, fn, args, None))
+            out.append(("cond", "<loop>", ctx["cont"]))
+            out.append(("label", ctx["brk"]))
             i = end
             continue
         if re.match(r"do\b", body[i:]):
@@ -570,6 +681,21 @@ def statements(body, fr=None):
             for (dst, fn, args, _) in calls_in(t[6:]):
                 out.append(("call", dst, fn, args, None))
             out.append(("ret",))
+        elif br is not None and re.match(r"(break|continue)\s*;", t):
+            l = br.get("brk" if t.startswith("break") else "cont")
+            if l is not None:
+                out.append(("goto", l))
+        elif br is not None:
+            cs = calls_in(t, spans=True)
+            for (dst, fn, args, _, _) in cs:
+                out.append(("call", dst, fn, args, None))
+            asg = top_assignment(t)
+            if asg is not None:
+                lhs, rhs = asg
+                body_end = len(t.rstrip().rstrip(";").rstrip())
+                covered = any(c[0].replace(" ", "") == lhs and c[4] == body_end for c in cs)
+                if not covered:
+                    out.append(("call", lhs, "", [rhs], None))
         else:
             for (dst, fn, args, _) in calls_in(t):
                 out.append(("call", dst, fn, args, None))
@@ -577,10 +703,10 @@ def statements(body, fr=None):
     return out
 
 
-def translate_body(body):
+def translate_body(body, branching=False):
     """statement list of a whole function body: main line, then the out-of-line blocks"""
     fr = Fresh()
-    sts = statements(body, fr)
+    sts = statements(body, fr, {"brk": None, "cont": None, "cases": None} if branching else None)
     if fr.deferred:
         if not is_jump(sts):
             sts.append(("ret",))
@@ -604,13 +730,13 @@ def subst(text, mapping):
     return re.sub(r"(?<![\w>.])(%s)\b" % "|".join(re.escape(k) for k in mapping), lambda m: mapping[m.group(1)], text)
 
 
-def translate_function(text, cname, depth=0, want_static=False):
+def translate_function(text, cname, depth=0, want_static=False, branching=False):
     """cleaned + preprocessed file text -> statement list of `cname`, sizeof expressions normalised, static helpers that
     release / wipe / may reallocate inlined (their `return` becomes a jump to the end of the inlined piece)"""
     params, body = find_function(text, cname, with_params=True, cleaned=True, want_static=want_static)
     types = declared_types(params, body)
     sts = [(st[0], st[1], st[2], [normalise_sizeof(a, types) for a in st[3]], st[4]) if st[0] == "call" else st
-           for st in translate_body(body)]
+           for st in translate_body(body, branching)]
     if depth >= 3:
         return sts, params
     out, k = [], 0
@@ -618,7 +744,7 @@ def translate_function(text, cname, depth=0, want_static=False):
         helper = None
         if st[0] == "call" and st[1] == "" and st[4] is None and st[2] != cname and st[2] not in KEYWORDS:
             try:
-                helper = translate_function(text, st[2], depth + 1, want_static=True)
+                helper = translate_function(text, st[2], depth + 1, want_static=True, branching=branching)
             except KeyError:
                 helper = None
         if helper is None or not any(h[0] == "call" and h[2] in SENSITIVE_FNS for h in helper[0]):
@@ -683,17 +809,19 @@ FUNCS = [
     ("aesKeyFree", "crypto/crypto_aes.c", "crypto_aes_key_free"),
     ("aesKeyFreeAesni", "crypto/crypto_aes_aesni.c", "crypto_aes_key_free_aesni"),
     ("aesKeyFreeArm", "crypto/crypto_aes_arm.c", "crypto_aes_key_free_arm", "optional"),
-    ("aesKeyExpand", "crypto/crypto_aes.c", "crypto_aes_key_expand"),
-    ("aesKeyExpandAesni", "crypto/crypto_aes_aesni.c", "crypto_aes_key_expand_aesni"),
-    ("aesKeyExpandArm", "crypto/crypto_aes_arm.c", "crypto_aes_key_expand_arm", "optional"),
+    # "branching": control flow kept (if/else, switch, loops) and plain assignments kept, for `errorPathsClean`
+    ("aesKeyExpand", "crypto/crypto_aes.c", "crypto_aes_key_expand", "branching"),
+    ("aesKeyExpandAesni", "crypto/crypto_aes_aesni.c", "crypto_aes_key_expand_aesni", "branching"),
+    ("aesKeyExpandArm", "crypto/crypto_aes_arm.c", "crypto_aes_key_expand_arm", "optional", "branching"),
     ("aesctrFree", "crypto/crypto_aesctr.c", "crypto_aesctr_free"),
-    ("aesctrAlloc", "crypto/crypto_aesctr.c", "crypto_aesctr_alloc"),
+    ("aesctrAlloc", "crypto/crypto_aesctr.c", "crypto_aesctr_alloc", "branching"),
+    ("aesctrInit", "crypto/crypto_aesctr.c", "crypto_aesctr_init", "branching"),
     ("aesctrBuf", "crypto/crypto_aesctr.c", "crypto_aesctr_buf"),
     ("awsReadkeys", "aws/aws_readkeys.c", "aws_readkeys"),
 ]
 
 
-def function_configs(src, cname, optional=False):
+def function_configs(src, cname, optional=False, branching=False):
     """-> ([(configuration name, statement list)] distinct lists, the harness configuration first; messages)"""
     text = clean_source(src)
     rel, assignments, msgs = configurations(text, cname)
@@ -701,7 +829,7 @@ def function_configs(src, cname, optional=False):
     for idx, asg in enumerate(assignments):
         pp, defined = preprocess(text, asg)
         try:
-            sts, _ = translate_function(pp, cname)
+            sts, _ = translate_function(pp, cname, branching=branching)
         except KeyError:
             if idx == 0 and not optional:
                 msgs.append("%s is not defined in the configuration the harness is built with" % cname)
@@ -713,6 +841,23 @@ def function_configs(src, cname, optional=False):
     if not out:
         raise KeyError("function %s not found in any configuration" % cname)
     return out, msgs
+
+
+def function_scalars(src, cname):
+    """variables of `cname` declared by value (no pointer, no array) in any configuration: a callee cannot write them"""
+    text = clean_source(src)
+    _, assignments, _ = configurations(text, cname)
+    names = []
+    for asg in assignments:
+        pp, _ = preprocess(text, asg)
+        try:
+            params, body = find_function(pp, cname, with_params=True, cleaned=True)
+        except KeyError:
+            continue
+        for v, (ty, nptr) in declared_types(params, body).items():
+            if nptr == 0 and v not in names:
+                names.append(v)
+    return sorted(names)
 
 
 def struct_fields(src, name):
@@ -741,7 +886,7 @@ def wipe_tables(repo):
     for ent in FUNCS:
         lname, f, cname = ent[:3]
         try:
-            cfgs, m = function_configs(read(repo, f), cname, optional="optional" in ent[3:])
+            cfgs, m = function_configs(read(repo, f), cname, optional="optional" in ent[3:], branching="branching" in ent[3:])
             msgs += ["%s:%s" % (f, x) for x in m]
         except Exception as e:
             msgs.append("%s:%s: %r" % (f, cname, e))
@@ -756,6 +901,14 @@ def wipe_tables(repo):
             txt += ",\n".join("    " + lean_stmt(st) for st in sts)
             txt += "])"
         txt += "]\n\n"
+        if "branching" in ent[3:]:
+            try:
+                sc = function_scalars(read(repo, f), cname)
+            except Exception as e:
+                msgs.append("%s:%s: %r" % (f, cname, e))
+                sc = []
+            txt += "/-- `%s`: variables declared by value (a callee cannot write them) -/\n" % cname
+            txt += "def %sScalars : List String := [%s]\n\n" % (lname, ", ".join(lean_str(v) for v in sc))
     # struct layouts of the HMAC contexts (a context is wiped when each of its members is)
     for lname, f, sname in [("hmacSha1CtxFields", "alg/sha1.h", "HMAC_SHA1_CTX"),
                             ("hmacMd5CtxFields", "alg/md5.h", "HMAC_MD5_CTX"),
